@@ -1,6 +1,6 @@
 """C01: one verdict per announced client, then silence."""
 from iauth_common import *
-PROFILE = dict(p_reannounce=0.12, maxcli=6, maxlen=60, p_good_reply=0.6)
+PROFILE = dict(p_reannounce=0.12, maxcli=6, maxlen=60, p_good_reply=0.6, p_departed=0.5, nsv=[1, 2, 2, 3, 4])
 
 def mon01(scn, d):
     """independent oracle on the daemon's own trace: live ids come from the input only"""
@@ -46,7 +46,7 @@ def mon01(scn, d):
     return None
 
 def run(chk):
-    r = standard_run(chk, PROFILE, 500, 20000)
+    r = standard_run(chk, PROFILE, 1500, 30000)
     if r is None: return
     drv, impl, scns, ms, ds = r
     def proj(lines, n):
